@@ -4,3 +4,5 @@ pub mod c10;
 pub mod vmrun;
 pub mod pipe;
 pub mod c05;
+pub mod conv;
+pub mod c14;
